@@ -7,6 +7,7 @@ package explore
 import (
 	"fmt"
 	"hash/fnv"
+	"os"
 	"strings"
 	"time"
 
@@ -19,6 +20,12 @@ type Scenario struct {
 	Opts    vs.Options
 	Body    func()
 	NoCache bool // oracles that depend on the linear order of independent operations
+	// DPOR: dynamic partial-order reduction + sleep sets (see dpor.go); same restriction on oracles.
+	DPOR bool
+	// With DPOR set and C >= 0 both searches run: first the preemption-bounded cached search up to C
+	// (which does not assume data-race freedom), then DPOR for at most DPORSeconds (0: until the
+	// deadline). The evidence reports the bound completed and whether DPOR finished.
+	DPORSeconds float64
 	C       int  // preemption bound (-1: unbounded)
 	F       int  // fault bound (Choose with cost, early timers)
 	HangOK  bool // the body being blocked at the end is not a violation by itself
@@ -40,6 +47,7 @@ type point struct {
 	cost       int // data: fault cost of non-zero answer
 	usedC      int // budgets used before this point
 	usedF      int
+	asleep     uint64 // sleep mode: alternatives that were asleep at this point
 }
 
 type run struct {
@@ -72,6 +80,7 @@ type Stats struct {
 	Executions   int      `json:"executions"`
 	Complete     int      `json:"complete_executions"`
 	Pruned       int      `json:"pruned_executions"`
+	SleepBlocked int      `json:"sleep_blocked_executions"`
 	States       int      `json:"states"`
 	Transitions  int      `json:"transitions"`
 	HorizonHits  int      `json:"horizon_hits"`
@@ -89,6 +98,7 @@ type Stats struct {
 	Violations   []Violation `json:"violations,omitempty"`
 	ViolationCnt int      `json:"violation_count"`
 	KnownCnt     int      `json:"known_count"`
+	DPORComplete bool     `json:"dpor_complete"`
 }
 
 type chooser struct {
@@ -101,6 +111,49 @@ type chooser struct {
 	replay  bool // pure replay: no cache, no pruning
 	err     string
 	newTr   int
+}
+
+type sleepEntry struct {
+	g      *vs.G
+	objs   []*uint64
+	ro     bool
+	global bool
+}
+
+func dependent(a, b *sleepEntry) bool {
+	if a.global || b.global {
+		return true
+	}
+	if a.ro && b.ro {
+		return false
+	}
+	for _, x := range a.objs {
+		for _, y := range b.objs {
+			if x == y {
+				return true
+			}
+		}
+	}
+	return false
+}
+
+
+func entryOf(w *vs.World, a vs.ThreadAlt) sleepEntry {
+	if a.Timer {
+		return sleepEntry{global: true}
+	}
+	objs, ro, gl := w.Footprint(a.G)
+	return sleepEntry{g: a.G, objs: objs, ro: ro, global: gl}
+}
+
+// sleepEntryOf is entryOf for an operation that is put to sleep: a dynamic footprint (context
+// cancel) may grow while it sleeps, so it is treated as dependent with everything.
+func sleepEntryOf(w *vs.World, a vs.ThreadAlt) sleepEntry {
+	e := entryOf(w, a)
+	if !a.Timer && w.DynamicFootprint(a.G) {
+		e.global = true
+	}
+	return e
 }
 
 func (ch *chooser) Thread(w *vs.World, alts []vs.ThreadAlt, curEnabled bool) int {
@@ -120,6 +173,9 @@ func (ch *chooser) Thread(w *vs.World, alts []vs.ThreadAlt, curEnabled bool) int
 		}
 	} else if !ch.replay {
 		key := w.StateKey()
+		if curEnabled && ch.c >= 0 {
+			key ^= w.CurID() * 0x9e3779b97f4a7c15
+		}
 		ex := ch.ex
 		if ex.useCache {
 			remC, remF := ch.c-ch.usedC, ch.f-ch.usedF
@@ -161,6 +217,8 @@ func (ch *chooser) Data(w *vs.World, n int, cost int, what string) int {
 	}
 	return choice
 }
+
+func (ch *chooser) End(w *vs.World) {}
 
 type budget struct{ c, f int32 }
 
@@ -235,6 +293,13 @@ func Explore(sc *Scenario, deadline time.Time) (result Stats) {
 		ex.st.Exhaustive = false
 		return ex.st
 	}
+	if os.Getenv("VS_DEBUG_POINTS") != "" {
+		for i, p := range c1.points {
+			if p.n > 1 {
+				fmt.Fprintf(os.Stderr, "point %d thread=%v n=%d curEnabled=%v\n", i, p.thread, p.n, p.curEnabled)
+			}
+		}
+	}
 	ex.st.Sample = r1.Obs
 	if len(r1.Trace) > 60 {
 		ex.st.SampleTrace = append(append([]string{}, r1.Trace[:60]...), fmt.Sprintf("... (%d more)", len(r1.Trace)-60))
@@ -243,7 +308,9 @@ func Explore(sc *Scenario, deadline time.Time) (result Stats) {
 	}
 
 	bounds := []int{}
-	if sc.C < 0 {
+	if sc.C < 0 && sc.DPOR {
+		// unbounded via DPOR only
+	} else if sc.C < 0 {
 		bounds = []int{-1}
 	} else {
 		for c := 0; c <= sc.C; c++ {
@@ -263,6 +330,39 @@ func Explore(sc *Scenario, deadline time.Time) (result Stats) {
 			break
 		}
 		ex.st.BoundC = c
+	}
+	if sc.DPOR && ex.st.EngineError == "" && len(ex.st.Violations) == 0 || sc.DPOR && ex.st.EngineError == "" && ex.st.Capped == "" {
+		bounded := ex.st.Exhaustive
+		states := ex.st.States
+		ex.useCache = false
+		full := ex.Deadline
+		if sc.DPORSeconds > 0 {
+			dl := time.Now().Add(time.Duration(sc.DPORSeconds * float64(time.Second)))
+			if full.IsZero() || dl.Before(full) {
+				ex.Deadline = dl
+			}
+		}
+		done := ex.searchDPOR(sc.F)
+		ex.Deadline = full
+		if len(ex.seen) > states {
+			states = len(ex.seen)
+		}
+		ex.st.States = states
+		ex.st.DPORComplete = done
+		if done {
+			ex.st.BoundC = -1
+			ex.st.Exhaustive = true
+			ex.st.Capped = ""
+		} else if ex.st.Capped == "deadline" && sc.C >= 0 {
+			// DPOR ran out of time: the bounded search result stands
+			ex.st.Capped = "dpor: deadline"
+			ex.st.Exhaustive = bounded
+			if sc.DPORSeconds > 0 && bounded {
+				ex.st.Capped = ""
+			}
+		} else {
+			ex.st.Exhaustive = false
+		}
 	}
 	ex.st.Outcomes = len(ex.outcomes)
 	ex.st.Nontrivial = len(ex.nontriv)
@@ -351,38 +451,12 @@ func (ex *Explorer) search(c, f int) bool {
 				ex.nontriv[oh] = struct{}{}
 			}
 			if fs := ex.verdict(&res); len(fs) > 0 {
-				// split into listed known findings and others
-				var unk []vs.Failure
-				kid := ""
-				for _, f := range fs {
-					if ex.sc.Known != nil {
-						if id := ex.sc.Known(f); id != "" {
-							if kid == "" {
-								kid = id
-							}
-							continue
-						}
-					}
-					unk = append(unk, f)
+				choices := make([]int, len(ch.points))
+				for i, p := range ch.points {
+					choices[i] = p.chosen
 				}
-				if len(unk) > 0 {
-					ex.st.ViolationCnt++
-					v := ex.confirm(ch, unk, c, f)
-					if v == nil {
-						return false
-					}
-					ex.st.Violations = append(ex.st.Violations, *v)
-					ex.st.Capped = "stopped at first unlisted violation"
+				if !ex.record(choices, fs, c, f) {
 					return false
-				}
-				ex.st.KnownCnt++
-				if !ex.haveKnown(kid) {
-					v := ex.confirm(ch, fs, c, f)
-					if v == nil {
-						return false
-					}
-					v.Known = kid
-					ex.st.Violations = append(ex.st.Violations, *v)
 				}
 			}
 		}
@@ -419,12 +493,46 @@ func (ex *Explorer) haveKnown(id string) bool {
 	return false
 }
 
-// confirm replays a violating choice sequence five times with tracing; all replays must agree.
-func (ex *Explorer) confirm(ch *chooser, fs []vs.Failure, c, f int) *Violation {
-	choices := make([]int, len(ch.points))
-	for i, p := range ch.points {
-		choices[i] = p.chosen
+// record files the failures of one execution: listed known findings are counted (the first of each
+// is confirmed and kept), anything else is confirmed and stops the search of this scenario.
+func (ex *Explorer) record(choices []int, fs []vs.Failure, c, f int) bool {
+	var unk []vs.Failure
+	kid := ""
+	for _, fl := range fs {
+		if ex.sc.Known != nil {
+			if id := ex.sc.Known(fl); id != "" {
+				if kid == "" {
+					kid = id
+				}
+				continue
+			}
+		}
+		unk = append(unk, fl)
 	}
+	if len(unk) > 0 {
+		ex.st.ViolationCnt++
+		v := ex.confirm(choices, unk, c, f)
+		if v == nil {
+			return false
+		}
+		ex.st.Violations = append(ex.st.Violations, *v)
+		ex.st.Capped = "stopped at first unlisted violation"
+		return false
+	}
+	ex.st.KnownCnt++
+	if !ex.haveKnown(kid) {
+		v := ex.confirm(choices, fs, c, f)
+		if v == nil {
+			return false
+		}
+		v.Known = kid
+		ex.st.Violations = append(ex.st.Violations, *v)
+	}
+	return true
+}
+
+// confirm replays a violating choice sequence five times with tracing; all replays must agree.
+func (ex *Explorer) confirm(choices []int, fs []vs.Failure, c, f int) *Violation {
 	var v *Violation
 	for k := 0; k < 5; k++ {
 		rc, res := ex.exec(choices, c, f, true, true)
